@@ -20,7 +20,8 @@ code -> spec: random world files and random atoms (slots drawn from the PMS slot
               with a power cut / half write / EIO at every mutation with a fresh WorldFile as reader
               (ReaderOldOrNew).
 Carve-outs  : comment and @set lines of an existing file are not "entries" (pinned by the repo tests: they
-              are dropped on rewrite) and are not generated.  A removal of an entry that is not recorded is
+              are dropped on rewrite); comment lines are generated (also comment-only files) and ignored when the
+              file is read back, @set lines are not generated.  A removal of an entry that is not recorded is
               a refusal (KeyError, swallowed by update_worldset, no flush).
 """
 import os
@@ -43,9 +44,10 @@ def mc_cfg(variant, small):
 
 
 def read_lines(path):
+    """The entries of the file: non-empty stripped lines; comment lines are not entries."""
     try:
         with open(path) as f:
-            return sorted({x.strip() for x in f.read().split("\n") if x.strip()})
+            return sorted({x.strip() for x in f.read().split("\n") if x.strip() and not x.strip().startswith("#")})
     except FileNotFoundError:
         return []
 
@@ -82,42 +84,41 @@ class Runner:
             raise tlc.MachineryError(f"renderer: {s!r} parsed as key={a.key!r} slot={a.slot!r}, wanted {op}")
         return a, s
 
-    def history(self, init, ops, r_=None, label=""):
+    def history(self, init, ops, r_=None, label="", comments=None):
         tid = self.n
         self.n += 1
+        comments = (tid % 3 == 1) if comments is None else comments
         path = os.path.join(self.root, f"world{tid}")
         with open(path, "w") as f:
-            f.write("\n".join(init) + ("\n" if init and tid % 2 else ""))
-        ws = self.WorldFile(path)
+            # every third file carries comment lines (not entries): also "comments only" and "nothing at all"
+            lines = (["# world set", "#a/b:12"] if comments else []) + list(init)
+            f.write("\n".join(lines) + ("\n" if lines and tid % 2 else ""))
+        seen = []
+        base = self.WorldFile
+
+        class Observed(base):
+            # update_worldset's own control flow decides about the refusal; observe it on the real object
+            def remove(s, x):
+                try:
+                    return base.remove(s, x)
+                except KeyError:
+                    seen.append("KeyError")
+                    raise
+
+            def flush(s):
+                seen.append("flush")
+                return base.flush(s)
+
+        ws = Observed(path)
         self.events.append(dict(tid=tid, i=0, ev="init", file=read_lines(path)))
         texts = []
         for i, op in enumerate(ops, 1):
             a, text = self.render(op, r_)
             texts.append(text)
-            seen = []
-
-            class Spy:
-                # update_worldset's own control flow decides about the refusal; observe it
-                def __init__(s, inner):
-                    s.inner = inner
-
-                def add(s, x):
-                    return s.inner.add(x)
-
-                def remove(s, x):
-                    try:
-                        return s.inner.remove(x)
-                    except KeyError:
-                        seen.append("KeyError")
-                        raise
-
-                def flush(s):
-                    seen.append("flush")
-                    return s.inner.flush()
-
+            del seen[:]
             err = ""
             try:
-                self.update(Spy(ws), a, remove=op["remove"])
+                self.update(ws, a, remove=op["remove"])
             except Exception as e:  # noqa
                 err = type(e).__name__
             self.events.append(dict(tid=tid, i=i, ev="update", key=op["key"], slot=op["slot"], remove=bool(op["remove"]),
@@ -126,7 +127,7 @@ class Runner:
             self.ck.count()
             if len(op["slot"]) > 1 or init:
                 self.ck.nontriv((tuple(init), op["key"], op["slot"], op["remove"], i))
-        self.cases[tid] = dict(init=list(init), ops=[dict(o) for o in ops], atoms=texts, source=label)
+        self.cases[tid] = dict(init=list(init), ops=[dict(o) for o in ops], atoms=texts, source=label, comments=comments)
         os.unlink(path)
         return tid
 
@@ -167,7 +168,7 @@ def run(ck):
                "or a non-empty file; every mutation of flush() is a crash point (+ half writes, + EIO)")
     ck.assumptions = ["entries are compared as the set of non-empty stripped lines of the world file",
                       "a power cut is a stop before a Python-level mutation (or after half a write); no fsync/reordering model",
-                      "comment / @set lines are not entries (dropped on rewrite by design) and are not generated"]
+                      "comment / @set lines are not entries (dropped on rewrite by design); comments are generated and ignored on read-back"]
     small = ck.quick
     pool = ThreadPoolExecutor(6)
     jobs = []
@@ -198,7 +199,7 @@ def run(ck):
     r_ = rng(30)
     if ck.replay_case:
         d = ck.replay_case["detail"]
-        rn.history(d["init"], d["ops"], label="replay")
+        rn.history(d["init"], d["ops"], label="replay", comments=bool(d.get("comments")))
         crash_inputs = [(d["init"], d["ops"][min(d.get("at", 1), len(d["ops"])) - 1])]
     else:
         # ---- code -> spec: random histories ----
@@ -282,7 +283,7 @@ def run(ck):
     for v in trace_job.result():
         e, c = by[(v["tid"], v["i"])], rn.cases[v["tid"]]
         prev = by[(v["tid"], v["i"] - 1)]
-        ck.violation(v["clause"], dict(init=c["init"], ops=c["ops"], atoms=c["atoms"], at=v["i"], key=e["key"], slot=e["slot"],
+        ck.violation(v["clause"], dict(init=c["init"], comments=c["comments"], empty_before=not prev["file"], ops=c["ops"], atoms=c["atoms"], at=v["i"], key=e["key"], slot=e["slot"],
                                        remove=e["remove"], slot_len=len(e["slot"]), file_before=prev["file"], file_after=e["file"],
                                        refused=e["refused"], error=e["error"], source=c["source"]))
     for v, e in (atomic.judge(ck, fs_events) if fs_events else []):
